@@ -139,8 +139,8 @@ add("C16", "TestC16", "exploration",
     RAPID.replace("sorted-map", "map[int32]T"), "DESIGN.md §4 C16")
 
 add("C17", "TestC17", "exploration",
-    dict(cases=2400, shards=8), dict(cases=60000, shards=16, timeout_s=3000),
-    "default options, no values; shapes: binary caterpillars with a step at every node, fan-out-11 byte nodes, per-node random label bitmaps, long keys (K4, up to 16 KiB), counters, byte fan-out, random bytes, K1, K2; n up to 10^4 (quick) / 10^5 (thorough); two drawn non-empty prefixes P1, P2 of 1 B..8 KiB; non-trivial = n >= 100 with >= n/4 steps, or a prefix >= 1 KiB",
+    dict(cases=2400, shards=8, extra=[dict(test="TestC17ConcurrentBuilds", shards=1)]), dict(cases=60000, shards=16, timeout_s=3000, extra=[dict(test="TestC17ConcurrentBuilds", shards=1, timeout_s=3000)]),
+    "rounds of 7 goroutines building filter-mode indexes with shared node shapes at the same time (size must equal the size when built alone); default options, no values; shapes: binary caterpillars with a step at every node, fan-out-11 byte nodes, per-node random label bitmaps, long keys (K4, up to 16 KiB), counters, byte fan-out, random bytes, K1, K2; n up to 10^4 (quick) / 10^5 (thorough); two drawn non-empty prefixes P1, P2 of 1 B..8 KiB; non-trivial = n >= 100 with >= n/4 steps, or a prefix >= 1 KiB",
     "Numeric bound len(Marshal()) <= 8n + 256, and metamorphic relation on prepending a common prefix: |size(P1+K) - size(P2+K)| <= 8 and |size(P+K) - size(K)| <= 24 + r, where r is the number of entries of the inner-prefix rank index (adding a step to a root that had none shifts every rank entry; varint growth can add a byte per entry).",
     "The tolerance r is read from the exported protobuf message of the built trie.", "metamorphic + bound property-based testing (rapid)", "DESIGN.md §4 C17")
 
